@@ -7,6 +7,7 @@ import MesaModel.Proofs.LegacyNetState
 import MesaModel.Proofs.LegacyIndex
 import MesaModel.Proofs.LegacyHexTorus
 import MesaModel.Proofs.LegacyCompose
+import MesaModel.Proofs.LegacyTruth
 /-!
 # C09 — legacy neighbourhood queries return exactly the cells/agents in range
 
@@ -153,6 +154,29 @@ theorem C09_cached_neighbors_with_moves (w h : Int) (hw : 1 ≤ w) (hh : 1 ≤ h
 example : runQ (init 4 4 false false 23) []
     [.op (.place 0 (1, 1)), .op (.place 1 (1, 2)), .nbrs ⟨(1, 1), true, false, 1⟩, .op (.move 1 (3, 3)), .nbrs ⟨(1, 1), true, false, 1⟩]
     = [.ok [1], .ok []] := by rfl
+
+/-- **an agent occupies its cell whatever its truth value** (round 4, mutation C09-3): agents are ordinary objects, a subclass may
+    give them `__bool__` / `__len__` (a dead animal, a depot with an empty stock).  In any history in which agents become falsy or
+    truthy (`TQ.truth`) between mutating calls and cached `get_neighbors` queries, whatever set `fz` of agents is falsy at the
+    start, every query returns what a fresh computation returns on the grid as it is at that moment, in the history with the
+    truth changes left out — the agents standing in range (`C09_get_neighbors_exact`), falsy or not.  (The code recognises an
+    empty cell by comparison with `default_val()`; the one reader that uses truthiness instead is `grid.agents`, see below.) -/
+theorem C09_neighbors_whatever_truth_value (w h : Int) (hw : 1 ≤ w) (hh : 1 ≤ h) (torus multi : Bool) (cutoff : Nat)
+    (fz : Falsy) (hist : List TQ) (hok : HistOkQ (init w h torus multi cutoff) (eraseTruth hist)) :
+    runT (init w h torus multi cutoff) [] fz hist = freshQ (init w h torus multi cutoff) (eraseTruth hist) := by
+  rw [runT_eq_runQ]
+  exact C09_cached_neighbors_with_moves w h hw hh torus multi cutoff _ hok
+
+/-- agent 1 stands next to agent 0 and is made falsy, then truthy again: it is a neighbour all along -/
+example : runT (init 4 4 false false 23) [] []
+    [.q (.op (.place 0 (1, 1))), .q (.op (.place 1 (1, 2))), .truth 1 false, .q (.nbrs ⟨(1, 1), true, false, 1⟩), .truth 1 true,
+     .q (.nbrs ⟨(1, 1), true, false, 1⟩)] = [.ok [1], .ok [1]] := by rfl
+/-- `setTruth` keeps the set of falsy agents: falsy after `truth a False`, truthy after `truth a True`, the others unchanged -/
+example (fz : Falsy) (a x : Aid) (b : Bool) : x ∈ setTruth fz a b ↔ (x = a ∧ b = false) ∨ (x ≠ a ∧ x ∈ fz) := mem_setTruth fz a b x
+/-- the truth value is not idle in the model: `grid.agents` of a SingleGrid (`if not entry: continue`) leaves a falsy occupant out,
+    of a MultiGrid it does not -/
+example : (run (init 3 3 false false 8) [.place 0 (1, 1), .place 1 (0, 2)]).agentsListT [0] = [1] := by decide
+example : (run (init 3 3 false true 8) [.place 0 (1, 1), .place 1 (0, 2)]).agentsListT [0] = [1, 0] := by decide
 
 /-- **hex `get_neighbors` / `iter_neighbors`**: for a centre in the grid every cell of the neighbourhood is a cell
     of the grid, so the raw indexing of `iter_cell_list_contents` reads exactly those cells, and the agents returned
